@@ -87,6 +87,12 @@ namespace fastscapelib
 
             for (size_type idx : graph_impl.base_levels())
             {
+                // a masked base level is outside the modelled domain: it must not flood its neighbors
+                if (graph_impl.is_masked(idx))
+                {
+                    continue;
+                }
+
                 open.emplace(pflood_node<FG, elev_t>(idx, elevation_flat(idx)));
                 closed(idx) = true;
             }
